@@ -1154,11 +1154,18 @@ def FIBER(
 
     A = input.signal
 
-    h = (
-        length
-        if (beta_2 == 0 and beta_3 == 0) or gamma == 0
-        else phi_max / (gamma * (np.abs(A[0]) ** 2 + np.abs(A[1]) ** 2)).max()
-    )
+    def step_size(A):
+        # longest step that keeps the nonlinear phase rotation below phi_max, never beyond the fiber end
+        P = np.abs(A) ** 2
+        if P.ndim == 2:
+            P = P.sum(axis=0)  # total power of both polarizations, per sample
+        P_max = P.max()
+        if gamma == 0 or P_max == 0:
+            return length
+        return min(length, phi_max / (gamma * P_max))
+
+    # a single full-length step when there is no dispersion (or no nonlinearity)
+    h = length if (beta_2 == 0 and beta_3 == 0) else step_size(A)
 
     x_length = h
 
@@ -1175,11 +1182,7 @@ def FIBER(
         if show_progress:
             barra_progreso.update(100 * h / length)
 
-        h = (
-            phi_max / (gamma * (np.abs(A[0]) ** 2 + np.abs(A[1]) ** 2)).max()
-            if gamma != 0
-            else length
-        )
+        h = step_size(A)
 
         if x_length + h > length:
             break
